@@ -59,5 +59,11 @@ pub unsafe extern "C" fn diplomat_free(ptr: *mut u8, size: usize, align: usize) 
 /// - `ptr` and `size` must be a valid `&[u8]`
 #[no_mangle]
 pub unsafe extern "C" fn diplomat_is_str(ptr: *const u8, size: usize) -> bool {
+    // Foreign callers represent the empty string as (NULL, 0) (e.g. a default `std::string_view`),
+    // which `slice::from_raw_parts` must never see
+    if ptr.is_null() {
+        debug_assert!(size == 0);
+        return true;
+    }
     core::str::from_utf8(core::slice::from_raw_parts(ptr, size)).is_ok()
 }
